@@ -23,6 +23,10 @@ RULES13 = ['InverseBinaryRule', 'BlockRowBlockDiagonalRule', 'BlockDiagonalBlock
            'LinearPolarizerHWPRule']
 
 PLAN = {
+    'C09': _p(quick=16, thorough=500, qbudget=80, tbudget=2400,
+              required_classes={'all': ['partial_last_block', 'multi_block', 'K>n', 'K=1', 'fft=2K-1', 'broadcast_band',
+                                        'default_fft', 'batched']},
+              exhaustive_scope='thorough tier only: the enumerated box of the sweep (see coverage.extra.sweep_box)'),
     'C14': _p(shards={'x32': 12, 'x64': 4}, quick=110, thorough=2500,
               exhaustive_scope='layer 1 only: every string of the stated grammar over {h,i,j,k} that numpy accepts'),
     'C13': _p(shards={'x32': 10, 'x64': 6}, quick=150, thorough=4000,
